@@ -244,7 +244,7 @@ func dbOptions(dir string) *NoKV.Options {
 	opt.ValueLogHotRingOverride = false
 	opt.WriteHotKeyLimit = 0
 	opt.WriteBatchWait = 0
-	opt.BlockCacheSize = 16
+	opt.BlockCacheSize = 4096
 	opt.BloomCacheSize = 16
 	opt.SyncWrites = false
 	opt.ManifestSync = false
